@@ -31,7 +31,33 @@ def sched_nontrivial(case, impl):
 RING_C14 = r'byte|obtained|consumer cursor|producer committed|consumer error|producer error'
 RING_C15 = r'LOST WAKE-UP|LEAKED LOCK|STUCK|did not|still locked|Close|within'
 
+def broker_nontrivial(case, impl):
+    # non-trivial: some event made the broker write a packet to a connection other than the sender's CONNACK
+    return impl.count(' 1 ') > 3
+
+def _broker(pid, n_quick, n_thorough):
+    return dict(name='brokerdrv', oracle_filter=r'(^%s:|\(%s\)|^STUCK)' % (pid, pid) if pid in ('C05',) else r'(^%s:|\(%s\))' % (pid, pid),
+                nontrivial=broker_nontrivial,
+                env=dict(quick=dict(VERIF_BROKER_N=str(n_quick)), thorough=dict(VERIF_BROKER_N=str(n_thorough))))
+
+BROKER_RULE = ('event histories (connect with every kind of first packet, SUBSCRIBE/UNSUBSCRIBE with valid and invalid filters, PUBLISH QoS 0-2 '
+               'with PUBREL / duplicates, retained and empty payloads, acks, DISCONNECT, abrupt close, protocol errors, in-process '
+               'Subscribe/Unsubscribe/Publish, Server.Close) on a real service.Server over net.Pipe, every live connection brought to a '
+               'PINGREQ/PINGRESP barrier after each event; per-connection packets compared with the Coq broker model and with a reference '
+               'broker written from the property texts. Non-trivial: the broker wrote packets beyond CONNACKs.')
+BROKER_ASSUME = ['Proto/Broker.v is a hand-written event-step model of the broker tied to the code by running the same histories (brokerdrv); '
+                 'events are separated by barriers (the concurrent window is covered by the ring / lock models and the race detector); '
+                 'Go runtime, net.Pipe and goroutine scheduling are not modelled']
+
 PROPS = {
+    'C01': dict(coq='Properties/C01.v', drivers=[_broker('C01', 120, 2500)], rule=BROKER_RULE, assumptions=BROKER_ASSUME),
+    'C02': dict(coq='Properties/C02.v', drivers=[_broker('C02', 120, 2500)], rule=BROKER_RULE, assumptions=BROKER_ASSUME),
+    'C05': dict(coq='Properties/C05.v', drivers=[_broker('C05', 120, 2500)], rule=BROKER_RULE, assumptions=BROKER_ASSUME),
+    'C07': dict(coq='Properties/C07.v', drivers=[_broker('C07', 120, 2500)], rule=BROKER_RULE, assumptions=BROKER_ASSUME),
+    'C08': dict(coq='Properties/C08.v', drivers=[_broker('C08', 120, 2500)], rule=BROKER_RULE, assumptions=BROKER_ASSUME),
+    'C09': dict(coq='Properties/C09.v', drivers=[_broker('C09', 120, 2500)], rule=BROKER_RULE, assumptions=BROKER_ASSUME),
+    'C10': dict(coq='Properties/C10.v', drivers=[_broker('C10', 120, 2500)], rule=BROKER_RULE, assumptions=BROKER_ASSUME),
+    'C11': dict(coq='Properties/C11.v', drivers=[_broker('C11', 120, 2500)], rule=BROKER_RULE, assumptions=BROKER_ASSUME),
     'C14': dict(
         coq='Properties/C14.v',
         drivers=[dict(name='ringdrv', oracle_filter=RING_C14, nontrivial=ring_nontrivial,
